@@ -290,6 +290,80 @@ def run_factor(chk: Check, prog: Program, S: Summaries) -> None:
         chk.fail("C16.R4", "C16.R4:factor:seeds", "seed entries (1, value) and (value, 1)", seed_problem, where=where)
     else:
         chk.undecided("C16.R4", "C16.R4:factor:seeds", "seed entries (1, value) and (value, 1)", seed_problem, where)
+    # ---- negative values: whatever the table holds, every entry k -> c is a factor pair of the value itself (k * c ==
+    # value); the rules index the table with a common key of two tables and multiply back
+    if loop in f.node.body:
+        def body_n(it: Interp):
+            env = Env(it, f, f.module)
+            env.vars["value"] = Num(("sym", "value"))
+            it.assume_sign(("sym", "value"), frozenset(["neg"]))
+
+            def h_sqrt(it2, path, args, kwargs):
+                return Num(("fn", "sqrt", it2.to_term(args[0])))
+
+            def h_isnan(it2, path, args, kwargs):
+                t = it2.to_term(args[0])
+                if t is not None and t[0] == "fn" and t[1] == "sqrt":
+                    # numpy's sqrt of a negative number is nan
+                    return it2.sign_query(t[2], frozenset(["neg"]), f"{A.term_str(t[2])}<0 (sqrt is nan)")
+                return False
+            it.hooks["ext:numpy.sqrt"] = h_sqrt
+            it.hooks["ext:math.sqrt"] = h_sqrt
+            it.hooks["ext:numpy.seterr"] = lambda it2, path, args, kwargs: None
+            it.hooks["ext:math.isnan"] = h_isnan
+            it.hooks["ext:numpy.isnan"] = h_isnan
+            try:
+                it.exec_block([st for st in f.node.body[:f.node.body.index(loop)]], env)
+            except _Return as r:
+                return ("returned", r.value)
+            # the loop is reached with a negative value: interpret its body once on a symbolic trial divisor
+            i = Num(("sym", "i"))
+            env.vars[target_name] = i
+            it.assume_sign(("sub", i.term, A.lit(2)), frozenset(["zero", "pos"]))
+            tables_before = {id(v_): dict(v_.items) for v_ in env.vars.values() if isinstance(v_, Dct)}
+            try:
+                it.exec_block(loop.body, env)
+            except (_Continue, _Break):
+                pass
+            return ("loop", [v_ for v_ in env.vars.values() if isinstance(v_, Dct)])
+        target_name = loop.target.id if isinstance(loop.target, ast.Name) else "i"
+        try:
+            for p_ in explore(prog, body_n, {"max_updepth": 0, "hooks": S.hooks()}, max_paths=256):
+                label = f"factor() of a negative value: {p_.cond or 'single path'}"
+                if p_.outcome != "return":
+                    if p_.outcome == "raise" and p_.exc.exc == "ValueError" and "sqrt" in str(p_.exc.detail) + str(p_.exc.site):
+                        chk.fail("C16.R4", "C16.R4:factor:negative:raise", label, f"raises {p_.exc}", where=where)
+                    else:
+                        chk.undecided("C16.R4", "C16.R4:factor:negative", label, f"{p_.outcome} {p_.exc or p_.note}", where)
+                    continue
+                how, val = p_.value
+                tables = [val] if how == "returned" and isinstance(val, Dct) else (val if how == "loop" else [])
+                bad_entry = None
+                v = ("sym", "value")
+                for t_ in tables:
+                    for k_, x_ in t_.items.items():
+                        tk, tx = p_.interp.to_term(k_), p_.interp.to_term(x_)
+                        if tk is None or tx is None:
+                            continue
+                        try:
+                            same = A.equal_nf(("mul", tk, tx), v, dict(p_.interp.eq_subst))
+                        except Exception:
+                            same = False
+                        if not same:
+                            st_, w_ = A.differ_witness(("mul", tk, tx), v, subst=dict(p_.interp.eq_subst),
+                                                       sampler=lambda rnd, syms, i_: {s_: (-float(rnd.choice([2, 4, 6, 12, 30])) if s_ == v else float(rnd.choice([2, 3]))) for s_ in syms})
+                            if st_ == "differ":
+                                bad_entry = (A.term_str(tk), A.term_str(tx), w_)
+                                break
+                    if bad_entry:
+                        break
+                chk.verdict(bad_entry is None, "C16.R4", "C16.R4:factor:negative", label,
+                            "" if bad_entry is None else f"entry {bad_entry[0]} -> {bad_entry[1]} is recorded for a negative value, but "
+                            f"{bad_entry[0]} * {bad_entry[1]} is not the value (e.g. {bad_entry[2]}): a rule that factors a common key "
+                            f"out of such a table changes the expression's value",
+                            witness=None if bad_entry is None else {"entry": bad_entry[:2], "assignment": bad_entry[2]}, where=where)
+        except Exception as e:  # noqa: BLE001
+            chk.undecided("C16.R4", "C16.R4:factor:negative", "factor() of a negative value", f"not interpretable: {e}", where)
     # ---- loop body on a symbolic trial divisor
     target = loop.target.id if isinstance(loop.target, ast.Name) else None
     if target is None:
@@ -301,12 +375,27 @@ def run_factor(chk: Check, prog: Program, S: Summaries) -> None:
         v = Num(("sym", "value"))
         i = Num(("sym", "i"))
         env.vars["value"] = v
+        it.assume_sign(v.term, frozenset(["pos"]))
+        # the statements before the loop run first (locals the body uses, the seeded table); the loop body is then
+        # interpreted once, on a symbolic trial divisor
+        it.hooks["ext:numpy.sqrt"] = lambda it2, path, args, kwargs: Num(("fn", "sqrt", it2.to_term(args[0])))
+        it.hooks["ext:math.sqrt"] = it.hooks["ext:numpy.sqrt"]
+        it.hooks["ext:math.isqrt"] = lambda it2, path, args, kwargs: Num(("fn", "int", ("fn", "sqrt", it2.to_term(args[0]))))
+        it.hooks["ext:numpy.seterr"] = lambda it2, path, args, kwargs: None
+        it.hooks["ext:math.isnan"] = lambda it2, path, args, kwargs: False
+        it.hooks["ext:numpy.isnan"] = it.hooks["ext:math.isnan"]
+        if loop in f.node.body:
+            it.exec_block([st for st in f.node.body[:f.node.body.index(loop)]], env)
+        tables = [x for x in env.vars.values() if isinstance(x, Dct)]
+        if len(tables) == 1:
+            table = tables[0]
+        else:
+            table = Dct()
+            env.vars["factors"] = table
+        table.items.clear()   # the seeds are judged by their own clause; here only what the body records
         env.vars[target] = i
-        table = Dct()
-        env.vars["factors"] = table
         it.table = table
         it.assume_sign(("sub", i.term, A.lit(2)), frozenset(["zero", "pos"]))
-        it.assume_sign(v.term, frozenset(["pos"]))
         try:
             it.exec_block(loop.body, env)
         except (_Continue, _Break):
